@@ -561,7 +561,7 @@ def run_shard(spec, M):
                 M.case(h64(R.text))
                 check_doc_vs_grammar(R, o, M, {"kind": "shard", "spec": spec, "text": R.text})
             else:
-                L = noisy.gen(r, 24)
+                L = noisy.gen_any(r, 24)
                 text = noisy.text_of(L)
                 stop = r.random() < 0.3
                 sim = noisy.simulate(L, stop)
